@@ -13,6 +13,7 @@ import (
 	"fmt"
 	"log"
 	"strings"
+	"time"
 	"unicode/utf16"
 
 	"verif/checks/c04"
@@ -325,7 +326,7 @@ func (x *world) subkeyOf(apreq []byte) {
 	}
 }
 
-var ops = []string{"login", "login-wrong-password", "ticket", "ticket-unknown-service", "ticket-other-realm", "spnego-roundtrip", "spnego-replayed", "renewal-timer",
+var ops = []string{"login", "login-wrong-password", "ticket", "ticket-renewed-after-expiry", "ticket-unknown-service", "ticket-other-realm", "spnego-roundtrip", "spnego-replayed", "renewal-timer",
 	"kdc-unreachable-login", "tampered-reply-login", "tampered-reply-ticket", "change-password", "destroy"}
 
 func (x *world) step(op string) {
@@ -344,6 +345,26 @@ func (x *world) step(op string) {
 		spn := map[string]string{"ticket": "HTTP/host.test.gokrb5", "ticket-unknown-service": "HTTP/nosuch.test.gokrb5", "ticket-other-realm": "HTTP/host.other.gokrb5"}[op]
 		tkt, _, err := cl.GetServiceTicket(spn)
 		x.errOut(op, err)
+		if err == nil {
+			b, _ := tkt.Marshal()
+			x.out("Ticket.Marshal(returned by GetServiceTicket)", b)
+		}
+	case "ticket-renewed-after-expiry":
+		// a service ticket is obtained, time passes beyond its end (still renewable in the renewable configurations),
+		// and it is asked for again: the client renews it (or gets a new one) and logs what it did
+		_, _, err := cl.GetServiceTicket("HTTP/host2.test.gokrb5")
+		x.errOut(op+":first", err)
+		var end time.Time
+		for _, e := range cl.VerifCache() {
+			if e.SPN == "HTTP/host2.test.gokrb5" {
+				end = e.EndTime
+			}
+		}
+		if !end.IsZero() {
+			vclock.Set(end.Add(time.Second))
+		}
+		tkt, _, err := cl.GetServiceTicket("HTTP/host2.test.gokrb5")
+		x.errOut(op+":again", err)
 		if err == nil {
 			b, _ := tkt.Marshal()
 			x.out("Ticket.Marshal(returned by GetServiceTicket)", b)
